@@ -495,13 +495,36 @@ func (g *gen) directedThreshold() {
 	g.judgeRead(ropBytes(mib-1), "plain", withTail(mib-1), "directed-threshold-full")
 	g.judgeRead(ropBytes(mib), "half", withTail(mib), "directed-threshold-full")
 	g.judgeRead(ropBytes(mib+1), "bigscript", withTail(mib+1), "directed-threshold-full")
-	g.judgeRead(ropBytes(mib+1), "plain", patBytes(mib+1), "directed-threshold-full")
 	g.judgeRead(ropBytes(mib+1), "plain", patBytes(mib), "directed-threshold-short-by-one") // buffer full, grown, then EOF
 	g.judgeRead(ropBytes(mib), "dataerr", patBytes(mib-1), "directed-threshold-short-by-one")
 	pre32 := binary.LittleEndian.AppendUint32(nil, mib+1)
 	g.judgeRead(ropBytesSize(l32), "half", append(pre32, withTail(mib+1)...), "directed-threshold-full")
-	pre64 := binary.LittleEndian.AppendUint64(nil, 2*mib+3)
-	g.judgeRead(ropBytesSize(l64), "bigscript", append(pre64, withTail(2*mib+3)...), "directed-threshold-full") // 1 MiB -> 2 MiB -> 2 MiB + 3
+	// claim >> data >= 1 MiB, then EOF: the first buffer fills, so the growth policy decides what is allocated. The data
+	// justifies buffers of 1, 2 (, 4) MiB; the claim (up to 2^28) justifies nothing beyond the first MiB.
+	u64 := cbKind{kind: 0}
+	g.truncated(ropBytes(1<<28), 0, mib, 0, "plain", "directed-truncated-large")
+	g.truncated(ropBytesSize(l32), 4, mib+1, 1<<28-1, "half", "directed-truncated-large")
+	g.truncated(ropBytesSize(l64), 8, mib+4096, 1<<26, "chunks64k", "directed-truncated-large")
+	g.truncated(ropObjectSize(l32, u64), 4, 2*mib+5, 1<<28, "dataerr", "directed-truncated-large")
+	g.truncated(ropBytes(1<<28), 0, 3*mib, 0, "chunks64k", "directed-truncated-large")
+	// ... and one random member of the family per run
+	{
+		n := vx.Pick(g.r, []int{mib, mib + 1, mib + 4096, 2*mib + 5, 3 * mib})
+		claim := vx.Pick(g.r, []uint64{1 << 22, 1<<24 + 1, 1 << 26, 1<<28 - 1, 1 << 28})
+		kind := vx.Pick(g.r, []string{"plain", "half", "chunks64k", "dataerr"})
+		switch g.r.Intn(5) {
+		case 0:
+			g.truncated(ropBytes(int64(claim)), 0, n, 0, kind, "random-truncated-large")
+		case 1:
+			g.truncated(ropBytesSize(l32), 4, n, claim, kind, "random-truncated-large")
+		case 2:
+			g.truncated(ropBytesSize(l64), 8, n, claim, kind, "random-truncated-large")
+		case 3:
+			g.truncated(ropObjectSize(l32, u64), 4, n, claim, kind, "random-truncated-large")
+		default:
+			g.truncated(ropObjectSize(l64, u64), 8, n, claim, kind, "random-truncated-large")
+		}
+	}
 	// size prefixes at the int boundary: 2^63-1 is a size (nothing backs it), 2^63 and 2^64-1 are errors for every helper
 	for _, pv := range []uint64{1<<63 - 1, 1 << 63, math.MaxUint64} {
 		for _, tail := range [][]byte{{}, {1, 2, 3}} {
@@ -514,6 +537,13 @@ func (g *gen) directedThreshold() {
 			}
 		}
 	}
+}
+
+// truncated judges o on a little-endian prefix of pfx bytes with value claim (none for pfx = 0: the claim is o's length
+// argument) followed by n pattern bytes and then EOF.
+func (g *gen) truncated(o rop, pfx, n int, claim uint64, kind, what string) {
+	data := binary.LittleEndian.AppendUint64(nil, claim)[:pfx]
+	g.judgeRead(o, kind, append(data, patBytes(n)...), what)
 }
 
 func (g *gen) prims(n int) {
